@@ -219,6 +219,14 @@ def check_index(paths, tags, nums, out, wcookies, index, index_file):
 # harness: sort.sort end to end
 
 
+PRIOR = {"s1": (9, 0), "s2": (2, 0), "x1": (5, 2), "t1": (4, 1)}
+
+
+def prior_tags(used):
+    """another build of the graph: the same segment names with other BO/NO tags (sorted earlier in the same process)"""
+    return {nid: PRIOR[nid] for nid in used}
+
+
 def build_sort(params, which):
     paths = params["paths"]
     n = len(paths)
@@ -251,6 +259,8 @@ def build_sort(params, which):
         nums = [(next(it), next(it), next(it)) for _ in range(n)]
         rc = [next(it) for _ in range(n + 1)]
         wc = [next(it) for _ in range(n + 1)]
+        if params.get("prior"):
+            run_sort(paths, prior_tags(used), [(500, 1 + i, 2 + i) for i in range(n)], rc, wc, gz_in, gz_out, index_file)
         lines, out, index = run_sort(paths, tags, nums, rc, wc, gz_in, gz_out, index_file)
         if which == "C08":
             return check_order(paths, tags, nums, out)
@@ -287,13 +297,17 @@ def write_graph(wd, tags, name="g.gfa"):
     return p
 
 
-def real_sort(wd, paths, tags, nums, gz_in=False, gz_out=False, order=None, outind=None, want_index=True, no_final_newline=False):
+def real_sort(wd, paths, tags, nums, gz_in=False, gz_out=False, order=None, outind=None, want_index=True, no_final_newline=False, prior=False):
     """runs the real run_sort on real files; returns (input lines, output lines, index dict, error)"""
     import pickle
     import pysam
     import gaftools.cli.sort as S
     from pysam import libcbgzf
 
+    if prior:
+        pd = os.path.join(wd, "prior")
+        os.makedirs(pd, exist_ok=True)
+        real_sort(pd, paths, prior_tags(sorted(tags)), [(500, 1 + i, 2 + i) for i in range(len(paths))], gz_in, gz_out)
     g = write_graph(wd, tags)
     order = list(range(len(paths))) if order is None else order
     lines = []
